@@ -493,9 +493,13 @@ def run(ctx):
 
     # ---- 4c. named scenarios
     sres = vf.read_ndjson(scn)
+    scen_errors = []
     for r in sres:
         if r["err"]:
-            raise vf.Inconclusive("scenario %s could not be set up: %s" % (r["name"], r["err"]))
+            # not evidence about the property; only fatal when nothing else decided the run (see the end)
+            scen_errors.append("scenario %s could not be set up: %s" % (r["name"], r["err"]))
+            ctx.log(scen_errors[-1])
+            continue
         ctx.log("scenario %-36s %s%s" % (r["name"], r["obs"], ("  -> " + r["viol"]) if r["viol"] else ""))
         if r["viol"]:
             ctx.violation(r["viol"], r["what"] + " [scenario " + r["name"] + "]", dict(observation=r["obs"], detail=r["detail"]))
@@ -603,6 +607,8 @@ def run(ctx):
     note(re_, "MC_Pool_edges")
     pool.shutdown()
 
+    if scen_errors and not ctx.violations:
+        raise vf.Inconclusive("; ".join(scen_errors))
     sample = scheds[len(scheds) // 3]
     ctx.cov = dict(
         states=states, transitions=trans,
